@@ -61,6 +61,7 @@ type transOut struct {
 	Repo          string        `json:"repo"`
 	GrepCount     int           `json:"grep_entry_calls"`
 	ASTCount      int           `json:"ast_entry_calls"`
+	Covered       int           `json:"covered_entry_calls"` // Entry call sites that became an Entry node of an entry point (helpers inlined)
 	EntryPoints   []*entryPoint `json:"entry_points"`
 	ParseFailures []string      `json:"parse_failures"`
 }
@@ -399,14 +400,15 @@ func main() {
 	}
 	rep.Consts["grep_entry_calls"] = t.GrepCount
 	rep.Consts["ast_entry_calls"] = t.ASTCount
+	rep.Consts["covered_entry_calls"] = t.Covered
 	rep.Consts["entry_points"] = len(t.EntryPoints)
 
 	distinct := emit.NewDistinct()
 	verbose := a.Only >= 0
 
-	if t.GrepCount != t.ASTCount || len(t.ParseFailures) > 0 {
+	if t.GrepCount != t.ASTCount || t.Covered != t.GrepCount || len(t.ParseFailures) > 0 {
 		rep.Fail(99999, "entry_calls_translated", "translator-missed-entry-call",
-			fmt.Sprintf("textual .Entry( count %d, translated %d, parse failures %v", t.GrepCount, t.ASTCount, t.ParseFailures), nil)
+			fmt.Sprintf("textual .Entry( count %d, calls in the syntax trees %d, call sites reached from an entry point %d, parse failures %v", t.GrepCount, t.ASTCount, t.Covered, t.ParseFailures), nil)
 	}
 
 	for i, ep := range t.EntryPoints {
